@@ -6,12 +6,12 @@ from vf import universe as U
 from vf import universe_b  # noqa: F401  (registers group B zones)
 from vf.prng import mix
 
-GROUP_B = ("Z5", "Z6", "Z7")
+GROUP_B = ("Z5", "Z6", "Z7", "Z8")
 
-QUICK = {"Z2": 24000, "Z3": 5000, "Z4": 5000, "Z5": 12000, "Z7": 4000}
+QUICK = {"Z2": 24000, "Z3": 5000, "Z4": 5000, "Z5": 12000, "Z7": 4000, "Z8": 4000}
 
 
-def plan_docs(tier, seed, complete=False, quick=None, zones=("Z1", "Z2", "Z3", "Z4", "Z5", "Z6", "Z7"), z1_all=True, limit=None, check=None, force_b=False):
+def plan_docs(tier, seed, complete=False, quick=None, zones=("Z1", "Z2", "Z3", "Z4", "Z5", "Z6", "Z7", "Z8"), z1_all=True, limit=None, check=None, force_b=False):
     quick = quick or QUICK
     items = []
     zinfo = {}
